@@ -394,6 +394,62 @@ def run_case(case):
             res["counters"]["views"] += 1
             if len(V) > nv1:
                 break
+        # ---------------------------------------------------------------- dup on a partially synced array
+        # "two non-empty SYNCED files": a file with a block whose hash is not the hash of its present data (pending blocks
+        # left by an interrupted sync) is never part of a pair; two files that agree in their synced leading blocks and
+        # differ in the pending rest are the hostile input
+        if len(V) == nv1 and len(a.disks) >= 2:
+            try:
+                c4 = a.load_content()
+            except Exception:
+                c4 = None
+            if c4 is not None and c4.hashsize == 16 and c4.prevhash is None:
+                npre = rng.randint(1, 2)
+                pre = A.gen_bytes(rng, npre * a.bs, "rand")
+                nrest = rng.randint(1, 3) * a.bs - rng.choice([0, 0, 7])
+                twins = [(a.disks[0], b"twin-pending-a", pre + A.gen_bytes(rng, nrest, "rand")), (a.disks[-1], b"twin-pending-b", pre + A.gen_bytes(rng, nrest, "rand"))]
+                same = A.gen_bytes(rng, (npre + 1) * a.bs, "rand")
+                twins += [(a.disks[0], b"same-pending-a", same), (a.disks[-1], b"same-pending-b", same)]
+                for (d_, nm_, data_) in twins:
+                    if scen._clear_path(fs, d_, nm_):
+                        fs.write(d_, nm_, data_)
+                a.cmd("sync", "-E", "-Z", "--test-kill-after-sync", variant=variant)
+                try:
+                    c4 = a.load_content()
+                    n2i4 = {n.encode(): i for i, n in enumerate(a.disk_names)}
+                    for (d_, nm_, _x) in twins[:2] + twins[2:3]:
+                        rec_ = [f for f in c4.files if f.sub == nm_ and n2i4[c4.disk_name(f.disk)] == d_]
+                        if rec_ and rec_[0].blocks:
+                            for bi_ in range(npre):
+                                a.cmd("sync", "-E", "-Z", "-S", str(rec_[0].blocks[bi_][0]), "-B", "1", variant=variant)
+                    c4 = a.load_content()
+                except Exception:
+                    c4 = None
+            if c4 is not None and c4.hashsize == 16 and c4.prevhash is None:
+                n2i4 = {n.encode(): i for i, n in enumerate(a.disk_names)}
+                rd4 = a.cmd("dup", variant=variant)
+                for s_ in rd4.san:
+                    V.append(("sanitizer:" + A.san_key(s_), s_[:2000], rep))
+                pairs4 = [((t[1], t[2]), (t[3], t[4])) for t in rd4.tag("dup") if len(t) >= 6]
+                recs4 = {(c4.disk_name(f.disk), f.sub): f for f in c4.files}
+                pending4 = {k_ for k_, f in recs4.items() if any(b[1] == cnt.CHG for b in f.blocks)}
+                def bytes4(k_):
+                    f = recs4.get(k_)
+                    if f is None:
+                        return None
+                    return fs.lookup(n2i4[k_[0]], f.sub, f.size, f.mtime_sec, f.mtime_nsec if f.mtime_nsec >= 0 else 0)
+                for (x_, y_) in pairs4:
+                    if x_ in pending4 or y_ in pending4:
+                        V.append(("dup-reports-file-with-pending-blocks", "after an interrupted sync dup pairs %r and %r although %s still has blocks recorded as changed" %
+                                  (x_, y_, [z for z in (x_, y_) if z in pending4]), rep))
+                        break
+                    bx_, by_ = bytes4(x_), bytes4(y_)
+                    if bx_ is not None and by_ is not None and bx_ != by_:
+                        V.append(("dup-reports-files-with-different-content", "after an interrupted sync dup pairs %r and %r (different bytes)" % (x_, y_), rep))
+                        break
+                res["counters"]["dup_runs_on_partially_synced_arrays"] = 1
+                res["counters"]["files_with_pending_blocks_at_dup"] = len(pending4)
+                res["counters"]["views"] += 1
         res["nontrivial"] = True
         res["nviews"] = res["counters"].get("views", 0)
         res["key"] = "%s|%d" % (sorted((k, str(v)) for k, v in cfg.items()), idx)
